@@ -1,7 +1,7 @@
 """C36 check configuration."""
 SPEC = {
     "module": "C36.Property",
-    "targets": ["C36/Property.vo"],
+    "targets": ["C36/Property.vo", "C36/Stress.vo"],
     "theorems": ["C36_invariant", "C36_sorted", "C36_no_duplicate_address", "C36_entries_distinct",
                  "C36_returned_present", "C36_returned_present_once", "C36_same_entry", "C36_counts_exact",
                  "C36_counts_zero", "C36_mutual_exclusion", "C36_model_satisfies_spec", "C36_nonvacuous"],
@@ -11,6 +11,12 @@ SPEC = {
         "why": {"2": "C36.Spec.spec_okb false on the real registry after this schedule: client list not strictly "
                      "sorted / an entry twice / an (address, entry) returned by get_client missing from the list / "
                      "open-connection counts not back to zero after every connection was closed"},
+    }, {
+        "name": "stress", "bin": "c36", "check_module": "C36.Stress", "fn": "check_scase", "casetype": "scase",
+        "env": {"C36_STREAM": "stress"},
+        "why": {"2": "C36.Stress.check_scase: after 2..16 real threads opened and closed thousands of connections at the "
+                     "same time the per-client list is not strictly sorted / has not one entry per address / an "
+                     "open-connection count is not back at zero (oracle-only stream, no model)"},
     }],
     "level_text": "Partial (the proof is about the model; that ArcSwap, the mutex and the Relaxed atomics make the "
                   "modelled steps atomic is assumed). Theorems for any number of threads, any per-thread sequence of "
@@ -18,7 +24,7 @@ SPEC = {
                   "per-address list stays strictly sorted, entries are distinct, every (address, entry) a get has "
                   "returned is in the list exactly once, two gets for one address return the same entry, each "
                   "counter equals the number of connections open on the entry, and all are 0 once every connection "
-                  "has closed; at most one thread is between lock and unlock.",
+                  "has closed; at most one thread is between lock and unlock. A second, oracle-only stream (`stress`, no model, no theorem) lets real threads open and close connections at once and checks the end state, because the atomicity of a single registry step is an assumption of the schedules stream.",
     "level_note": "Model hand-written from src/metrics.rs RtrPerAddrMetrics::get and src/rtr.rs RtrStream::new / Drop. "
                   "Tie = schedule-controlled replay: real threads running the real RtrStream::new/drop are stopped "
                   "at cfg(routinator_verif) points after every modelled atomic step and released one at a time "
